@@ -1017,9 +1017,19 @@ where
 
     impl_groups
         .clone()
-        .cartesian_product(impl_groups.clone())
-        .filter(|(g1, g2)| g1 != g2)
-        .filter_map(|(g1, g2)| g1.is_superset(g2).map(|subs| (g1, g2, subs)))
+        .enumerate()
+        .cartesian_product(impl_groups.clone().enumerate())
+        .filter(|((_, g1), (_, g2))| g1 != g2)
+        .filter_map(|((i1, g1), (i2, g2))| {
+            let subs = g1.is_superset(g2)?;
+
+            // NOTE: Ids that generalise each other (e.g. `(T)` and `T`) would wait on each other forever
+            if i1 > i2 && g2.is_superset(g1).is_some() {
+                return None;
+            }
+
+            Some((g1, g2, subs))
+        })
         .fold(
             (
                 impl_groups
